@@ -42,6 +42,14 @@ void genHttp(Prng& r, Plan& p, int tier)
 		p.p["knob.net.sndbuf"] = 512 << r.below(8);
 	if (r.below(2))
 		p.p["knob.http.send_block"] = (int64_t)biased(r, 1, 128000, {1, 7, 4096, 16000, 128000});
+	// relaxed configuration (reported separately): one connection is reset after k bytes
+	if (r.below(6) == 0)
+	{
+		p.p["conn_reset"] = 1; // the scheduler stays fair (no starvation fault): blocking sends have no timeout in asl,
+		                       // so a starved peer plus full buffers can deadlock both sides - outside any statement
+		p.p["knob.net.reset_conn"] = r.below((uint32_t)n);
+		p.p["knob.net.reset_after"] = r.below(2) ? r.below(600) : r.below(400000);
+	}
 }
 
 struct Run
@@ -149,6 +157,7 @@ void checkClient(const Spec& s, const Run& R)
 	}
 }
 
+static bool g_relaxedRun = false;
 void aslClient(Spec* s)
 {
 	sim::sleepFor(s->atMs * 0.001);
@@ -183,7 +192,7 @@ void aslClient(Spec* s)
 			c = (char)tolower((unsigned char)c);
 		s->cHeaders.push_back({kv.first, res.hasHeader(nm.c_str()) ? std::string(*res.header(nm.c_str())) : std::string("\x01<absent>")});
 	}
-	if (s->respKind == 2 && res.code() != 0)
+	if (s->respKind == 2 && res.code() != 0 && !g_relaxedRun)
 	{
 		// compared through the encoder (null == null is false for asl::Var by design; value semantics are C04's subject)
 		asl::Var v = res.json();
@@ -273,6 +282,7 @@ void rawClient(std::vector<Spec*> group)
 void runHttp(const Plan& p)
 {
 	Run R;
+	g_relaxedRun = p.get("conn_reset") != 0;
 	int nfiles = (int)std::max<int64_t>(1, std::min<int64_t>(4, p.get("files", 1)));
 	uint64_t fseed = (uint64_t)p.get("file_seed");
 	sim::fs::mkdirs("/sim/www");
@@ -377,6 +387,35 @@ void runHttp(const Plan& p)
 	sim::sleepFor(3.0);
 
 	sim::NoSched ns;
+	if (p.get("conn_reset"))
+	{
+		// a connection was reset at an arbitrary byte: a request may fail or be cut short, it may never deliver wrong
+		// data, and everything has terminated (we are here). Requests that completed normally must still be exact.
+		sim::probe("relaxed_run");
+		for (auto& s : R.specs)
+		{
+			if (s.handlerCalls > 0)
+			{
+				if (s.oBody.size() > s.body.size() || s.body.compare(0, s.oBody.size(), s.oBody) != 0)
+					sim::fail("relaxed_wrong_data", "handler_body", "request %d under a connection reset: the handler saw body bytes that were never sent", s.id);
+				if (s.oMethod != s.method)
+					sim::fail("relaxed_wrong_data", "method", "request %d under a connection reset: handler saw method %s", s.id, s.oMethod.c_str());
+			}
+			if (!s.cIdEcho.empty() && s.cIdEcho != std::to_string(s.id))
+				sim::fail("cross_talk", "id_echo;relaxed", "request %d received the response to request %s", s.id, s.cIdEcho.c_str());
+			if (s.cCode >= 200 && s.cCode < 300 && s.handlerCalls > 0)
+			{
+				int code;
+				std::string body;
+				bool exact;
+				expectedResponse(s, R, code, body, exact);
+				if (s.cBody.size() > body.size() || body.compare(0, s.cBody.size(), s.cBody) != 0)
+					sim::fail("relaxed_wrong_data", "client_body", "request %d under a connection reset: the client got body bytes the handler never produced (kind %d)", s.id, s.respKind);
+			}
+		}
+		sim::setNontrivial();
+		return;
+	}
 	int overlapHint = 0;
 	std::set<int> firstOfGroup;
 	for (auto& g : groups)
